@@ -50,7 +50,7 @@ class C03(Prop):
             cfg["source"] = "hier"
             cfg["acyclic_libs"] = True
             cfg["shuffle_order"] = r.random() < 0.7
-            cfg["name_style"] = r.choice(["unique", "unique", "pool"])
+            cfg["name_style"] = r.choice(["unique", "scoped", "scoped", "pool"])
             cfg["name_pool"] = NAME_POOL
             cfg["ident_rate"] = r.choice([0.0, 0.0, 0.3])
             cfg["edif_props"] = r.random() < 0.6
